@@ -273,14 +273,20 @@ def cstr(s):
     return s.split(b"\x00")[0]
 
 
-def run_pyside(extdir, model, sentences, load_methods=False, timeout=600):
+def run_pyside_session(extdir, specs, jobs, timeout=1200):
+    """ONE interpreter with every model of `specs` loaded (in that order); jobs = [(model index, sentence)] in the order they
+    are to be executed.  Returns the observations in job order."""
     env = {"PYTHONPATH": extdir}
-    cmd = [sys.executable, PYSIDE, model] + (["--load-methods"] if load_methods else [])
-    rc, out, err = vlib.sh(cmd, input=("\n".join(hx(s) for s in sentences) + "\n").encode(), env=env, timeout=timeout)
+    data = "".join("%d %s\n" % (k, hx(s)) for k, s in jobs).encode()
+    rc, out, err = vlib.sh([sys.executable, PYSIDE] + list(specs), input=data, env=env, timeout=timeout)
     lines = [l for l in out.split("\n") if l.startswith("{")]
-    if rc != 0 or len(lines) != len(sentences) + 1:
+    if rc != 0 or len(lines) != len(jobs) + 1:
         return None, "python side died rc=%d after %d answers: %s" % (rc, max(len(lines) - 1, 0), err[-600:])
     return [json.loads(l) for l in lines[1:]], None
+
+
+def run_pyside(extdir, model, sentences, load_methods=False, timeout=600):
+    return run_pyside_session(extdir, [model + ("+lm" if load_methods else "")], [(0, s) for s in sentences], timeout)
 
 
 def variants(s):
@@ -503,11 +509,7 @@ def make_models(ctx, drv, rng, thorough):
     return out
 
 
-def check_model(ctx, label, arpa, model, mtype, sentences, drv, extdir, query, ocaml, results):
-    pyobs, err = run_pyside(extdir, model, sentences, load_methods=(label.endswith("probing") or label.endswith(":trie")))
-    if err:
-        ctx.report("python:extension-died", err, {"model": label, "arpa": arpa}, found=True)
-        return
+def check_model(ctx, label, arpa, model, mtype, sentences, drv, extdir, query, ocaml, results, pyobs, session):
     chains, err = run_typed(drv, model, mtype, sentences)
     if err:
         raise vlib.InfraError(err)
@@ -527,7 +529,7 @@ def check_model(ctx, label, arpa, model, mtype, sentences, drv, extdir, query, o
                 fails += oracle_query(s, chains, i, qs[ci][i], ci == 3)
                 results["query_compared"] += 1
         results["evaluations"] += 4
-        case = {"model": label, "arpa": os.path.relpath(arpa, vlib.REPO) if arpa.startswith(vlib.REPO + os.sep) else arpa, "arpa_text": open(arpa, "rb").read().decode("latin-1") if arpa.startswith(ctx.scratch) else None,
+        case = {"session": session, "model": label, "arpa": os.path.relpath(arpa, vlib.REPO) if arpa.startswith(vlib.REPO + os.sep) else arpa, "arpa_text": open(arpa, "rb").read().decode("latin-1") if arpa.startswith(ctx.scratch) else None,
                 "sentence_hex": hx(s), "sentence_repr": repr(s)[:200]}
         for sig, what in fails:
             results["spec_fail"] += 0 if sig in (SIG_NUL, SIG_NUL_WORD) else 1
@@ -589,6 +591,7 @@ def run(ctx):
     if os.path.exists(cp):
         corpus = [bytes.fromhex(l.strip()) if l.strip() != "-" else b"" for l in open(cp) if l.strip() and not l.startswith("#")]
     ctx.count("corpus_cases", len(corpus))
+    per_model = []
     for label, arpa, model, mtype in models:
         grams = parse_arpa(arpa)
         sentences = corpus + gen_sentences(rng.fork(), grams, ctx.pick(25, 2500))
@@ -596,7 +599,27 @@ def run(ctx):
         for s in sentences:
             if s not in seen:
                 seen.add(s); ss.append(s)
-        check_model(ctx, label, arpa, model, mtype, ss, drv, extdir, query, ocaml, results)
+        per_model.append(ss)
+    # ONE interpreter holds every model (all types of every ARPA file), loaded in a seed-dependent order; the calls of the
+    # different models are interleaved in random order, so state that a binding keeps per process rather than per model shows
+    order = list(range(len(models)))
+    rng.shuffle(order)
+    specs = [models[k][2] + ("+lm" if (models[k][0].endswith("probing") or models[k][0].endswith(":trie")) else "") for k in order]
+    jobs = [(pos, i) for pos, k in enumerate(order) for i in range(len(per_model[k]))]
+    rng.shuffle(jobs)
+    session = {"load_order": [models[k][0] for k in order], "first_scored": models[order[jobs[0][0]]][0] if jobs else None}
+    obs, err = run_pyside_session(extdir, specs, [(pos, per_model[order[pos]][i]) for pos, i in jobs])
+    if err:
+        ctx.report("python:extension-died", err, {"session": session}, found=True)
+        obs = None
+    ctx.coverage["models_in_one_interpreter"] = len(models)
+    ctx.coverage["first_model_scored"] = session["first_scored"]
+    if obs is not None:
+        by_model = [[None] * len(ss) for ss in per_model]
+        for (pos, i), o in zip(jobs, obs):
+            by_model[order[pos]][i] = o
+        for k, (label, arpa, model, mtype) in enumerate(models):
+            check_model(ctx, label, arpa, model, mtype, per_model[k], drv, extdir, query, ocaml, results, by_model[k], session)
     ctx.count("evaluations", results["evaluations"])
     ctx.coverage["distinct_nontrivial"] = len(results["nontrivial"])
     ctx.coverage["traces_validated_against_impl"] = results["validated"]
@@ -605,7 +628,7 @@ def run(ctx):
     ctx.coverage["rule"] = ("every model file (lm/test.arpa, lm/test_nounk.arpa, a generated order-3 ARPA with UTF-8 words and dyadic probabilities; as ARPA text "
                             "and as binary of the six types) x sentences (empty, all-whitespace, each ASCII whitespace byte as separator / leading / trailing, "
                             "OOV, <s> </s> <unk> inside, invalid UTF-8, every non-ASCII str.isspace() character between two words, 1000-byte word, 200 words, NUL at every position class, "
-                            "random joins of the model's own n-grams with random whitespace) x bos/eos in {T,F}^2; every valid-UTF-8 sentence is given to score / full_scores / perplexity / `in` both as bytes and as str.  evaluations = sentence x model x combination.  "
+                            "random joins of the model's own n-grams with random whitespace) x bos/eos in {T,F}^2; all model files are loaded into ONE interpreter in a seed-dependent order and their calls interleaved at random; every valid-UTF-8 sentence is given to score / full_scores / perplexity / `in` both as bytes and as str.  evaluations = sentence x model x combination.  "
                             "Non-trivial: >= 2 tokens, or leading/trailing whitespace, or a NUL byte; distinct = distinct (model, sentence).")
     ctx.coverage["spec_oracle_failures"] = results["spec_fail"]
     ctx.coverage["correspondence_mismatches"] = len(results["mismatch"])
@@ -625,6 +648,8 @@ def run(ctx):
 
 
 def replay(ctx, obj):
+    """rebuilds every model type of the case's ARPA file, loads them all into one interpreter (the other types first, as a
+    process-wide state needs) and applies the oracles to the sentence on each of them"""
     r = obj["replay"]
     drv = vlib.compile_driver("c14_driver", DRV)
     extdir = build_pyext()
@@ -634,25 +659,32 @@ def replay(ctx, obj):
         arpa = os.path.join(ctx.scratch, "replay.arpa")
         open(arpa, "wb").write(r["arpa_text"].encode("latin-1"))
     name, _, kind = r["model"].partition(":")
-    model, mtype = arpa, "0"
-    if kind != "arpa":
-        t = TYPE_NAMES.index(kind)
-        model = os.path.join(ctx.scratch, "replay.bin")
-        vlib.sh([drv, "--build", arpa, str(t), model], timeout=120, check=True)
-        mtype = "auto"
+    files = [("arpa", arpa, "0")]
+    for t in range(6):
+        b = os.path.join(ctx.scratch, "replay.%d.bin" % t)
+        vlib.sh([drv, "--build", arpa, str(t), b], timeout=120, check=True)
+        files.append((TYPE_NAMES[t], b, "auto"))
+    # the reported model last, the model that was scored first in the failing session first
+    first = (r.get("session") or {}).get("first_scored", "").partition(":")[2]
+    files.sort(key=lambda f: (f[0] == kind, f[0] != first))
     s = bytes.fromhex(r["sentence_hex"]) if r["sentence_hex"] != "-" else b""
-    pyobs, err = run_pyside(extdir, model, [s])
+    obs, err = run_pyside_session(extdir, [f[1] for f in files], [(k, s) for k in range(len(files))])
     if err:
         print(err); return 1
-    chains, err = run_typed(drv, model, mtype, [s])
-    fails = oracle(s, pyobs[0], chains, 0)
-    for nc, ci in ((False, 0), (True, 3)):
-        q, err = run_query(query, model, [s], nc)
-        if q and 0 in q:
-            fails += oracle_query(s, chains, 0, q[0], nc)
-    print("sentence:", repr(s), "\nmodel:", r["model"], "\npython:", json.dumps(pyobs[0])[:1500])
-    for sig, what in fails:
-        print("ORACLE:", sig, what)
+    bad = 0
+    print("sentence:", repr(s))
+    for (k, model, mtype), o in zip(files, obs):
+        chains, err = run_typed(drv, model, mtype, [s])
+        fails = oracle(s, o, chains, 0)
+        for nc, ci in ((False, 0), (True, 3)):
+            q, err = run_query(query, model, [s], nc)
+            if q and 0 in q:
+                fails += oracle_query(s, chains, 0, q[0], nc)
+        fails = [(sig, what) for sig, what in fails if sig not in (SIG_NUL, SIG_NUL_WORD)]
+        print("model:", name + ":" + k, "score TT:", o["combos"][0]["score"], "sum(full_scores) TT:", f32_sum([p for p, _, _ in o["combos"][0]["fs"]]))
+        for sig, what in fails:
+            print("  ORACLE:", sig, what)
+        bad += len(fails)
     import shutil
     shutil.rmtree(ctx.scratch, ignore_errors=True)
-    return 1 if fails else 0
+    return 1 if bad else 0
